@@ -528,7 +528,9 @@ func (f *FaceModule) destroy(interest *spec.Interest, pitToken []byte, inFace ui
 		core.LogInfo(f, "Ignoring attempt to delete non-existent face with FaceID=", *params.FaceId)
 	}
 
-	response = makeControlResponse(200, "OK", params.ToDict())
+	// Echo the FaceId only: converting all of the request's parameters back (ToDict) fails for a
+	// structured field such as Strategy, and a nil response crashed the management thread
+	response = makeControlResponse(200, "OK", map[string]any{"FaceId": *params.FaceId})
 	f.manager.sendResponse(response, interest, pitToken, inFace)
 }
 
